@@ -154,6 +154,8 @@ func c10Eval(c *fw.Ctx, k c10Case) (sig, desc string, nontrivial bool) {
 		cmd.ItemPattern = "nothing/*"
 	case "nomatch-file":
 		cmd.SrcPattern = "z*.wsp"
+	case "nomatch-file-in-one-item":
+		cmd.SrcPattern = "b.wsp" // item x has it (two files or more), item y has only a.wsp
 	case "one-file-pattern":
 		cmd.SrcPattern = "a.wsp"
 		x = x[:1]
@@ -172,7 +174,10 @@ func c10Eval(c *fw.Ctx, k c10Case) (sig, desc string, nontrivial bool) {
 		return "C10/panic", ctx + ": " + firstLine(pn), false
 	}
 	switch k.Mode {
-	case "nomatch-item", "nomatch-file":
+	case "nomatch-item", "nomatch-file", "nomatch-file-in-one-item":
+		if k.Mode == "nomatch-file-in-one-item" && len(k.Codes) < 2 {
+			return "", "", false
+		}
 		if cls != "not-exist" {
 			return "C10/" + k.Mode + "/" + cls, fmt.Sprintf("%s: a pattern that matches nothing must be reported as not existing, got %s (%v)", ctx, cls, err), true
 		}
@@ -313,7 +318,7 @@ func runC10(c *fw.Ctx) {
 			one(c10Case{Layout: "L4", Now: now, Codes: codes, Base: base, Mode: "sum", Archive: -1, ZeroLater: true})
 		}
 		if idx%97 == 0 {
-			for _, m := range []string{"nomatch-item", "nomatch-file", "layout-mismatch", "one-file-pattern"} {
+			for _, m := range []string{"nomatch-item", "nomatch-file", "nomatch-file-in-one-item", "layout-mismatch", "one-file-pattern"} {
 				one(c10Case{Layout: "L4", Now: now, Codes: codes, Base: base, Mode: m, Archive: -1, Header: true})
 			}
 			for _, arch := range []int{-1, 0, 1} {
